@@ -85,6 +85,25 @@ Example ex_f7_one_error :
   trace_of cfg_p h_two = [(EDisconnect 1, []); (ESend 0 call_fd, [(0, OErr ENotSupported 7)]); (EConnect false, []); (EConnect true, [])].
 Proof. vm_compute. reflexivity. Qed.
 
+(* a sender that closes right after writing: the close is processed AFTER everything it wrote (the earlier steps of the trace,
+   i.e. every delivery decided for its messages, are exactly those of the history without the close) and then its state is
+   gone.  That the real bus reads everything that was completely written before it acts on the hang-up is the
+   correspondence's business (fire-and-forget bursts in tools/props/c05.py). *)
+Theorem C05_close_keeps_earlier_steps : forall cf h c,
+  trace_of cf (h ++ [EDisconnect c]) = (EDisconnect c, snd (step cf (state_of cf h) (EDisconnect c))) :: trace_of cf h.
+Proof. exact close_keeps_earlier_steps. Qed.
+Print Assumptions C05_close_keeps_earlier_steps.
+
+Theorem C05_close_cleans_up : forall cf st c,
+  connected st c = true ->
+  let st' := fst (step cf st (EDisconnect c)) in
+  connected st' c = false /\
+  (forall p, In p (st_pend st') -> p_get p <> c /\ p_send p <> Some c) /\
+  (forall n q o, In (n, q) (st_names st') -> In o q -> o_conn o <> c) /\
+  (forall x, In x (st_rules st') -> fst x <> c).
+Proof. exact close_cleans_up. Qed.
+Print Assumptions C05_close_cleans_up.
+
 (* non-vacuity *)
 Definition eav_all : rule := mkRule true None None None.
 Example ex_own_rule_no_second_copy :
